@@ -85,8 +85,9 @@ let () =
   let fuel = nat_of_int (try int_of_string Sys.argv.(1) with _ -> 300) in
   (* argv.(2) = "noflip" / "seethrough": the deliberately unsound variants (power test of the check) *)
   let cf = match (try Sys.argv.(2) with _ -> "") with
-    | "noflip" -> { cf_flip_dom = false; cf_guard_typeof = true }
-    | "seethrough" -> { cf_flip_dom = true; cf_guard_typeof = false }
+    | "noflip" -> { cf_flip_dom = false; cf_guard_typeof = true; cf_dedup = false }
+    | "seethrough" -> { cf_flip_dom = true; cf_guard_typeof = false; cf_dedup = false }
+    | "dedup" -> { cf_flip_dom = true; cf_guard_typeof = true; cf_dedup = true }
     | _ -> cfg_real in
   try
     while true do
